@@ -57,6 +57,7 @@ type Ctx struct {
 	notes   []string
 	assume  []string
 	fset    *token.FileSet
+	evals   int // abstract evaluations performed by E6 (orderings x scalings), added to coverage.evaluations
 }
 
 func newCtx(prop, tier string) *Ctx {
@@ -313,7 +314,8 @@ func (c *Ctx) finish(start time.Time, explanation string) int {
 			"rule":                "obligation = (rule, construct) enumerated from /repo's type-checked source on this run; non-trivial = decided by a path, table, flow or cross-module argument rather than mere existence; distinct by rule+construct key",
 			"obligations":         len(c.obls),
 			"discharged":          nDis,
-			"evaluations":         len(c.obls),
+			"evaluations":         len(c.obls) + c.evals,
+			"abstract_evaluations": c.evals,
 			"distinct_nontrivial": nNontriv,
 			"violated":            nViol,
 			"undecided":           nUnd,
